@@ -585,6 +585,18 @@ func (g *FnGen) evalCall(x ECall, ctx *EvalCtx) Val {
 			return Val{T: sel(sel(g.D.get(ctx.st, h), m.T), k.T), S: sortBool}
 		}
 		return g.mkVal(sel(sel(g.D.get(ctx.st, vk), m.T), k.T), mt.Elem())
+	case "substr":
+		v := g.eval(x.Args[0], ctx)
+		lo := g.eval(x.Args[1], ctx)
+		hi := g.eval(x.Args[2], ctx)
+		lt, ht := lo.T, hi.T
+		if lo.Lit != nil {
+			lt = bvLit(lo.Lit, 64)
+		}
+		if hi.Lit != nil {
+			ht = bvLit(hi.Lit, 64)
+		}
+		return Val{T: fmt.Sprintf("(ssub %s %s %s)", v.T, lt, ht), S: sortStr, Go: types.Typ[types.String]}
 	case "base":
 		v := g.eval(x.Args[0], ctx)
 		return Val{T: "(s_base " + v.T + ")", S: sortRef}
